@@ -78,8 +78,27 @@ pub fn gen_stream(cx: &Cx) -> (Vec<u8>, Vec<&'static str>) {
                 kinds.push("damaged");
             }
             6 => {
-                // garbage terminated by LF (possibly empty)
-                let n = cx.draw(12) as usize;
+                // garbage terminated by LF (possibly empty); now and then a very long burst of
+                // noise, or a frame whose hex digits were turned into non-ASCII decimal digits
+                let n = if cx.chance(1, 24) {
+                    cx.probe("noise_line_longer_than_1k");
+                    900 + cx.draw(8000) as usize
+                } else {
+                    cx.draw(12) as usize
+                };
+                if cx.chance(1, 16) {
+                    cx.probe("line_of_non_ascii_digits");
+                    let mut g: Vec<u8> = vec![b':'];
+                    let digits = 10 + 2 * cx.draw(6) as usize;
+                    for _ in 0..digits {
+                        // U+0660..U+0669 ARABIC-INDIC DIGIT: 0xD9 0xA0..0xA9
+                        g.extend_from_slice(&[0xD9, 0xA0 + cx.draw(10) as u8]);
+                    }
+                    g.extend_from_slice(b"\r\n");
+                    out.extend(g);
+                    kinds.push("non-ascii-digits");
+                    continue;
+                }
                 let mut g = cx.bytes(n);
                 for b in g.iter_mut() {
                     if *b == b'\n' {
@@ -219,7 +238,9 @@ impl Scenario for C15Read {
         let mut s0 = SimStream::new(cx, data.clone());
         s0.frag = Frag::Whole;
         let c0 = read_pass(cx, &mut s0, false)?;
-        let step = if c0 > 400 { 1 + cx.draw(7) as usize } else { 1 };
+        // every index for ordinary streams; for very long ones (noise bursts) about 48 placements
+        // spread over the whole stream, with a drawn phase
+        let step = if c0 > 1200 { c0 / 48 } else if c0 > 400 { 1 + cx.draw(7) as usize } else { 1 };
         let mut j = if step > 1 { cx.draw(step as u64) as usize } else { 0 };
         while j < c0 {
             let mut sj = SimStream::new(cx, data.clone());
@@ -279,6 +300,7 @@ impl Scenario for C15Write {
             cx.event("frame", &(f.address().0, f.message_type().0, f.data().len()));
             let mut s = SimStream::new(cx, vec![]);
             s.short_writes = true;
+            s.vectored = cx.chance(1, 2);
             s.eintr_den = *cx.pick(&[0u64, 8, 3]);
             s.log_calls = true;
             let r = f.write(&mut s);
@@ -387,6 +409,12 @@ impl std::io::Write for LimitedSink {
     fn write(&mut self, buf: &[u8]) -> std::io::Result<usize> {
         let n = buf.len().min(self.max);
         self.inner.write(&buf[..n])
+    }
+    fn write_vectored(&mut self, bufs: &[std::io::IoSlice<'_>]) -> std::io::Result<usize> {
+        // a natively gathering sink with a per-call byte budget
+        let all: Vec<u8> = bufs.iter().flat_map(|b| b.iter().copied()).collect();
+        let n = all.len().min(self.max);
+        self.inner.write(&all[..n])
     }
     fn flush(&mut self) -> std::io::Result<()> {
         Ok(())
